@@ -54,6 +54,10 @@ class StatementSplitter:
 
         if unified == 'BEGIN':
             self._begin_depth += 1
+            if self._in_declare:
+                # the level was already raised by the DECLARE section
+                self._in_declare = False
+                return 0
             if self._is_create:
                 # FIXME(andi): This makes no sense.  ## this comment neither
                 return 1
